@@ -170,7 +170,10 @@ theorem appendBatch_H (es : List (LogId × Bytes)) :
           (fun e he => hsm e (List.mem_cons_of_mem _ he))
           (fun e he => hwf e (List.mem_cons_of_mem _ he))
       refine ⟨seg2, s2, e2, ?_, ?_, by rw [hrm2, hrm1]⟩
-      · unfold Store.appendBatch
+      · have hidxD12 : id.index + 1 ≠ U64 := by
+          have : id.index + 1 < U64 := hsm (id, p) List.mem_cons_self
+          omega
+        rw [appendBatch_cons_small_D12 _ _ _ _ _ _ _ hidxD12]
         rw [heq1]
         simp only
         exact heq2
@@ -264,7 +267,10 @@ theorem call_H {s : Store} {fs : Fs} {w : Worker} {r r' : RefLog} {W : List Op} 
       exact step (stepOK_truncateAfter h.inv.abs (Or.inr ⟨e, (RefLog.entryAt_some he).1, rfl⟩)
         (by rw [← hde]; exact hds)) hidwf rfl
   | purge upto =>
-    simp only [Store.call]
+    have hidxD12 : upto.index + 1 ≠ U64 := by
+      have : upto.index + 1 < U64 := hsm
+      omega
+    simp only [Store.call, if_neg hidxD12]
     rw [nextIndexChecked_eq h.inv.abs.pf.purged]
     simp only [hpu]
     have hc0 := hc
